@@ -285,6 +285,7 @@ density_sketch<T, K, A> density_sketch<T, K, A>::deserialize(std::istream& is, c
   }
 
   const auto num_retained = read<uint32_t>(is);
+  if (num_retained == 0) throw std::invalid_argument("Possible corruption: non-empty sketch without retained points");
   const auto n = read<uint64_t>(is);
 
   // levels arrays
@@ -345,6 +346,7 @@ density_sketch<T, K, A> density_sketch<T, K, A>::deserialize(const void* bytes, 
   ensure_minimum_memory(size, PREAMBLE_INTS_LONG * sizeof(uint32_t));
   uint32_t num_retained;
   ptr += copy_from_mem(ptr, num_retained);
+  if (num_retained == 0) throw std::invalid_argument("Possible corruption: non-empty sketch without retained points");
   uint64_t n;
   ptr += copy_from_mem(ptr, n);
 
